@@ -46,6 +46,7 @@ func TestVerifC05b(t *testing.T) {
 }
 
 var c08property = "C08"
+
 func TestVerifC08C(t *testing.T) { c08test(t, true) }
 
 func c08test(t *testing.T, controlled bool) {
@@ -99,9 +100,9 @@ func c08run(r *kernel.Run, seed uint64, controlled bool) {
 	if controlled {
 		ndev = 2
 	}
-	sameAccount := r.Choose(3) == 2 // two devices of one member
+	sameAccount := r.Choose(3) == 2            // two devices of one member
 	window := []int{100, 1, 2, 3}[r.Choose(4)] // precomputed-keys window of every store: small windows make out-of-order arrivals miss and retry
-	if !controlled { // lossy and duplicating network during the history (repaired by head exchange at the end)
+	if !controlled {                           // lossy and duplicating network during the history (repaired by head exchange at the end)
 		if r.Choose(2) == 1 {
 			s.dropRate = 1 + r.Choose(10)
 		}
